@@ -191,6 +191,8 @@ def synthetic_code_batches(scratch, versions, n_per_version, rng_tag):
         for i in range(n_per_version):
             # whatever the seed: one jump over 70 000 instructions (target >= 65536: EXTENDED_ARG on the jump) and one over 300
             code, desc = CB.make_code(rng, v, tables, force_sled={0: 70000, 1: 300}.get(i))
+            if i == 2:
+                code, desc = b"", "empty"  # a code object without instructions: dis yields nothing
             kind = "s" if v < (3, 0) else "B"
             items.append({"pyc": os.path.join(wd, "syn%05d.pyc" % i), "tag": "synthetic-code/%s/%s" % (K.vstr(v), desc[:80]),
                           "fields": {"co_code": [kind, binascii.hexlify(code).decode()], "co_stacksize": ["i", "a"]}})
